@@ -258,7 +258,7 @@ func init() {
 		Rule: "cases alternate between (a) controlled batches of 129..385 documents whose records are 2-3 bytes except one size-knob record per 128-document block, so that consecutive blocks' uncompressed sizes differ by -8..+24 bytes and every block ends in a very short record; built, memory-/file-loaded, merged through the byte-copy path and through the re-encode path, and (b) general worlds (0/1/many stored fields, empty values, repeated fields, no stored field); visits run forwards, backwards, random, alternating between first/last records of different blocks, interleaved across segments, plus n>=Count and early-stopping visitors; " +
 			"oracle = specification per visit; one evaluation per visit; non-trivial = segment with more than one 128-document block, distinct by (shape, kind, stored content)",
 		Assumptions: InputContract,
-		Phases:      []runner.Phase{{Name: "visit", Cases: cases(240, 6000), Run: c06Run}},
+		Phases:      []runner.Phase{{Name: "visit", Cases: cases(2400, 60000), Run: c06Run}},
 		Floors: func(string) map[string]int64 {
 			return map[string]int64{"short_last_record_visits": 2000, "block_switches": 5000, "early_stops": 500, "visits_out_of_range": 500, "visits.merged": 5000, "visits.loaded-file": 3000}
 		},
